@@ -66,6 +66,17 @@ def general(tier, job_open=M_JOB, top_open=M_TOP, nest_open=M_NEST,
                          job_open={'dur': [2]}, top_open={'window': [1]},
                          nest_open={'critical': [True]}, k=1 if th else 0,
                          bound=2)
+    STAG = [[('a', 'dur', 1), ('b', 'dur', 2), ('c', 'dur', 3),
+             ('x', 'dur', 1), ('y', 'dur', 2)],
+            [('a', 'dur', 2), ('b', 'dur', 1), ('c', 'dur', 1),
+             ('x', 'dur', 2), ('y', 'dur', 1)]]
+    yield from spaces.mk(['nest32'], force='product',
+                         fargs={'parts': [
+                             ('mods', {'alts': [[('top', 'verbose', True),
+                                                 ('n', 'verbose', True)]]}),
+                             ('mods', {'alts': STAG})]},
+                         job_open={'out': ['raise']}, top_open={},
+                         nest_open={}, k=1 if th else 0, bound=2)
     # empty nested schedulers as jobs
     yield from spaces.mk(['nest20', 'nest30'], force='none',
                          job_open=dict(job_open, dur=[0, 2]),
